@@ -174,7 +174,40 @@ def gen_T02():
         fn = [n for n in ccap[0].body if isinstance(n, ast.FunctionDef) and n.name == name][0]
         need('users.getUser' not in ast.unparse(fn) and 'capabilities.add' not in ast.unparse(fn),
              'Channel.capability.%s touches capability sets outside the pinned statements' % name)
-    out = 'Definition NAME_FORBIDDEN : list N := %s.\n' % clist(str(ord(c)) for c in forbidden)
+    # IrcUser.checkPassword: an empty or missing password never authenticates (repair of C02.F44)
+    cp = find_def(d, 'checkPassword', 'IrcUser')
+    stmts = [n for n in cp.body if not (isinstance(n, ast.Expr) and isinstance(n.value, ast.Constant))]
+    need(stmts and ' '.join(ast.unparse(stmts[0]).split()) == 'if not password or not self.password: return False',
+         'IrcUser.checkPassword: the first statement must be `if not password or not self.password: return False`')
+    need(' '.join(ast.unparse(cp).split()).endswith(
+         "if self.hashed: salt, _ = self.password.split('|') return self.password == utils.saltHash(password, salt=salt) "
+         "else: return self.password == password"), 'IrcUser.checkPassword: comparison changed')
+    # unpreserve.Reader.readFile: how users.conf is cut into lines.  A text-mode open() iterated by read() ends a line at
+    # \\n, \\r and \\r\\n only (universal newlines); codecs/io readers with str.splitlines semantics also end it at
+    # \\x0b \\x0c \\x1c \\x1d \\x1e \\x85 U+2028 U+2029.  The characters are emitted; Coq checks them against the model's
+    # reader (C16 split_nl) and against what User._checkName refuses.
+    rt = tree('src/unpreserve.py')
+    rf = find_def(rt, 'readFile', 'Reader')
+    rd = find_def(rt, 'read', 'Reader')
+    need(ast.unparse(rd.args) == 'self, fd' and any(isinstance(n, ast.For) and ast.unparse(n.iter) == 'fd' for n in rd.body),
+         'unpreserve.Reader.read no longer iterates the file object line by line')
+    opens = [n for n in ast.walk(rf) if isinstance(n, ast.Call) and ast.unparse(n.func).split('.')[-1] == 'open']
+    need(len(opens) == 1 and 'self.read(' in ast.unparse(rf), 'unpreserve.Reader.readFile: expected exactly one open() handed to self.read')
+    oc = opens[0]
+    kw = {k.arg: k.value for k in oc.keywords}
+    if ast.unparse(oc.func) == 'open' and len(oc.args) == 1 and not (set(kw) - {'encoding', 'errors'}):
+        lineseps = [10, 13]                                        # text mode, newline=None
+    elif ast.unparse(oc.func) in ('codecs.open', 'io.open', 'open'):
+        mode = ast.literal_eval(oc.args[1]) if len(oc.args) > 1 else (ast.literal_eval(kw['mode']) if 'mode' in kw else 'r')
+        need(isinstance(mode, str) and 'b' not in mode and 'newline' not in kw, 'unpreserve.Reader.readFile: open() mode/newline not understood')
+        if ast.unparse(oc.func) == 'codecs.open':
+            lineseps = [10, 13, 11, 12, 28, 29, 30, 133, 8232, 8233]      # StreamReader iteration = str.splitlines
+        else:
+            lineseps = [10, 13]
+    else:
+        need(False, 'unpreserve.Reader.readFile: unknown way of opening the file: ' + ast.unparse(oc))
+    out = 'Definition READER_LINESEPS : list N := %s.\n' % clist(str(c) for c in lineseps)
+    out += 'Definition NAME_FORBIDDEN : list N := %s.\n' % clist(str(ord(c)) for c in forbidden)
     out += 'Definition SPECS : list (list N * list N) := %s.\n' % clist(
         '(%s, %s)' % (cstr(k), cstr(v)) for k, v in specs)
     for k, v in specs:
@@ -184,4 +217,4 @@ def gen_T02():
     out += 'Definition DEFAULT_FLAG : bool := %s.\n' % ('true' if flag else 'false')
     out += 'Definition BOOL_TRUE : list (list N) := %s.\n' % clist(cstr(x) for x in tups[0])
     out += 'Definition BOOL_FALSE : list (list N) := %s.\n' % clist(cstr(x) for x in tups[1])
-    return 'plugins/User/plugin.py, plugins/Admin/plugin.py, plugins/Channel/plugin.py, src/ircdb.py, src/utils/str.py', out
+    return 'plugins/User/plugin.py, plugins/Admin/plugin.py, plugins/Channel/plugin.py, src/ircdb.py, src/utils/str.py, src/unpreserve.py', out
